@@ -33,7 +33,7 @@ def InitNotStale (init : Option File) (sm0 : Nat) : Prop := ∃ f, init = some f
 
 /-- the initial module may be reused: not older than the source, right generator version, this template file -/
 def InitReusable (init : Option File) (sm0 : Nat) : Prop :=
-  ∃ f, init = some f ∧ ¬ f.mtime < sm0 ∧ f.content.magic = magicNumber ∧ f.content.file = 0
+  ∃ f, init = some f ∧ ¬ f.mtime < sm0 ∧ f.content.magic = magicNumber ∧ normOf f.content.file = normOf 0
 
 def PhaseK (init : Option File) (v0 sm0 : Nat) (fs : FS) : Phase → Prop
   | .statted sm => sm = sm0
@@ -143,13 +143,13 @@ theorem stepProc_K {init : Option File} {v0 sm0 : Nat} (st : CState) (pid : Nat)
               · exact absurd (cv _ hp) hn
             have : f0 = f := by rw [hinit, hf0] at hf; cases hf; rfl
             subst this
-            have hnr : ¬ (f0.content.magic ≠ magicNumber ∨ f0.content.file ≠ 0) :=
+            have hnr : ¬ (f0.content.magic ≠ magicNumber ∨ normOf f0.content.file ≠ normOf 0) :=
               fun hor => hreg ⟨rfl, (regenNeeded_iff f0.content).2 hor⟩
             refine ⟨f0, hf0, hns, ?_, ?_⟩
             · by_cases hm : f0.content.magic = magicNumber
               · exact hm
               · exact absurd (Or.inl hm) hnr
-            · by_cases hfi : f0.content.file = 0
+            · by_cases hfi : normOf f0.content.file = normOf 0
               · exact hfi
               · exact absurd (Or.inr hfi) hnr
   · exact h
